@@ -1,7 +1,7 @@
 (* C19 — DDEHistory returns the piecewise-linear interpolant of what it was given.
-   This file contains statements only; every proof is `exact <lemma of HistoryProofs>`. *)
+   This file contains statements only; every proof is `exact <lemma of HistoryProofs / HistoryCont>`. *)
 From Coq Require Import List ZArith QArith Qcanon Bool Arith.
-From PV Require Import History HistoryProofs.
+From PV Require Import History HistoryProofs HistoryCont.
 Import ListNotations.
 Open Scope Qc_scope.
 
@@ -54,6 +54,25 @@ Theorem C19_between : forall rs i t, incr (times rs) -> (S i < length rs)%nat ->
   interp rs t = lerp (nth i (times rs) 0) (nth i (values rs) []) (nth (S i) (times rs) 0) (nth (S i) (values rs) []) t.
 Proof. exact interp_between. Qed.
 Print Assumptions C19_between.
+
+(* consequences of the four cases (HistoryCont.v): the interpolant is continuous at every knot - the segment formula of
+   C19_between taken at the end of its segment is the next record, so C19_between and C19_at_record agree there - and it
+   never overshoots: between two records every component of the answer lies between the two recorded components *)
+Theorem C19_continuous_at_knots : forall rs i, incr (times rs) -> (S i < length rs)%nat ->
+  length (nth i (values rs) []) = length (nth (S i) (values rs) []) ->
+  lerp (nth i (times rs) 0) (nth i (values rs) []) (nth (S i) (times rs) 0) (nth (S i) (values rs) [])
+       (nth (S i) (times rs) 0) = nth (S i) (values rs) [].
+Proof. exact interp_segment_meets_next. Qed.
+Print Assumptions C19_continuous_at_knots.
+
+Theorem C19_no_overshoot : forall rs i t k, incr (times rs) -> (S i < length rs)%nat ->
+  nth i (times rs) 0 <= t -> t < nth (S i) (times rs) 0 -> hd 0 (times rs) < t ->
+  length (nth i (values rs) []) = length (nth (S i) (values rs) []) -> (k < length (nth i (values rs) []))%nat ->
+  let a := nth k (nth i (values rs) []) 0 in let b := nth k (nth (S i) (values rs) []) 0 in
+  let v := nth k (interp rs t) 0 in
+  (a <= b -> a <= v /\ v <= b) /\ (b <= a -> b <= v /\ v <= a).
+Proof. exact interp_component_between. Qed.
+Print Assumptions C19_no_overshoot.
 
 (* non-vacuity: a script that crosses two growth events (capacity 1 -> 2 -> 4), queries between records,
    satisfies the hypothesis and produces the interpolated value 5/2 at t = 3/2 *)
